@@ -15,6 +15,8 @@ from . import base, configs
 from .minimise import minimise
 
 PID = 'C14'
+TIMED_LINES = []
+TL_LINES = []
 JOB_FIT = 'checks.jobs:fit_world'
 JOB_TILE = 'checks.jobs:slices_world'
 JOB_GEN = 'checks.jobs:gen_world'
@@ -52,6 +54,35 @@ def fixture_configs(tier):
     return [dict(runname=n, basis=None, compl=c, nfun=configs.nfun(S[n], c)) for n, c in lst]
 
 
+def timed_lines():
+    """Source lines of simplifier.time_limit and of test_all.main's fitting loop / optimise_fun (found by text, so that
+    line shifts do not matter): candidates for 'the timeout strikes before this statement' in the fitting stage."""
+    import re
+    from esrsim.common import REPO
+    repo = os.environ.get('ESRSIM_REPO', REPO)
+    out = []
+    TL_LINES[:] = []
+    for rel, start, stop in (('esr/generation/simplifier.py', 'def time_limit', 'def get_max_param'),
+                             ('esr/fitting/test_all.py', 'def optimise_fun', 'def main'),
+                             ('esr/fitting/test_all.py', '    for i in range(len(fcn_list_proc)):', '    out_arr = ')):
+        try:
+            src = open(os.path.join(repo, rel)).read().splitlines()
+        except Exception:
+            continue
+        on = False
+        for n, ln in enumerate(src, 1):
+            if ln.startswith(start):
+                on = True
+                continue
+            if on and ln.startswith(stop):
+                break
+            if on and ln.strip() and not ln.strip().startswith(('#', '"""', ':', 'Args', 'Returns', 'Raises')):
+                out.append(n)
+                if start == 'def time_limit':
+                    TL_LINES.append(n)
+    return out
+
+
 def draw_fit(seed, i, fixtures, tier):
     rs = base.run_seed(seed, i)
     rng = base.rng_for(rs)
@@ -81,7 +112,19 @@ def draw_fit(seed, i, fixtures, tier):
     if fx.get('lib') and all((fx['runname'], c) in have for c in range(1, fx['compl'])) and rng.random() < 0.3:
         # rank 0 writes previous_eqns_<n>.txt into the library directory, every rank reads it while fitting
         opts['test_all']['ignore_previous_eqns'] = True
-    return dict(runname=fx['runname'], compl=fx['compl'], lib_src=fx['lib'], like=like, opts=opts, P=P, seed=rs,
+    extra = {}
+    if rng.random() < 0.15 and TIMED_LINES:
+        # F3 in the fitting stage: the per-function time limit of test_all expires - before a chosen statement in every fit
+        # (incl. the statements of time_limit itself), or at a statement / a call inside scipy in a few chosen fits
+        c = rng.random()
+        if c < 0.5:
+            pl = {'*': ['line', rng.choice(TL_LINES if (TL_LINES and rng.random() < 0.5) else TIMED_LINES), rng.choice([1, 1, 2])]}
+        elif c < 0.8:
+            pl = {str(rng.randint(1, 8)): ['stmt', rng.randint(1, 60)] for _ in range(rng.randint(1, 3))}
+        else:
+            pl = {str(rng.randint(1, 8)): ['deep', rng.randint(1, 4000)] for _ in range(rng.randint(1, 2))}
+        extra = dict(plan={str(r): dict(pl) for r in range(P)}, tick_modules=['esr.generation.simplifier', 'esr.fitting.test_all'])
+    return dict(extra, runname=fx['runname'], compl=fx['compl'], lib_src=fx['lib'], like=like, opts=opts, P=P, seed=rs,
                 policy=draw_policy(rng, P), eager=rng.choice([0.0, 0.2, 0.5, 0.8, 1.0]), root_copy=rng.random() < 0.25,
                 data_seed=rs % 100003, npts=rng.randint(20, 40), npseed=rs % 9973, run_seed=rs, nuniq=fx['nuniq'], synth_seed=rs % 977)
 
@@ -107,8 +150,9 @@ def main(tier, seed, budget):
     rep = base.Reporter(PID)
     quick = tier == 'quick'
     explore_s = budget or (150 if quick else 1500)
+    TIMED_LINES[:] = timed_lines()
     fixroot = '%s/esrsim-fix-c14-%d' % (scratch_root(), os.getpid())
-    stats = dict(ipe_worlds=0, fit_worlds=0, tile_worlds=0, tile_cases=0, by_P={}, by_like={}, by_policy={}, events=0, rdigests=set(),
+    stats = dict(fault_worlds=0, faults_fired=0, ipe_worlds=0, fit_worlds=0, tile_worlds=0, tile_cases=0, by_P={}, by_like={}, by_policy={}, events=0, rdigests=set(),
                  nontrivial=set(), P_gt_U=0, P_ge_11=0, rows_checked=0, cmp_runs=0, tile_pairs=set())
     samples = []
     selftest = {}
@@ -166,6 +210,8 @@ def main(tier, seed, budget):
                         stats['nontrivial'].add(('tile', a['P'], tuple(a['Ns']), r['rdigest']))
                 else:
                     stats['fit_worlds'] += 1
+                    stats['fault_worlds'] += int(bool(a.get('plan')))
+                    stats['faults_fired'] += sum(len((rk.get('clock') or {}).get('fired') or []) for rk in r['ranks'])
                     stats['ipe_worlds'] += int(bool((a.get('opts') or {}).get('test_all', {}).get('ignore_previous_eqns')))
                     stats['by_like'][a['like']['cls']] = stats['by_like'].get(a['like']['cls'], 0) + 1
                     stats['P_gt_U'] += int(a['P'] > (a.get('nuniq') or 0))
@@ -223,10 +269,10 @@ def main(tier, seed, budget):
         samples=samples, fit_worlds=stats['fit_worlds'], tile_worlds=stats['tile_worlds'], tile_cases=stats['tile_cases'],
         tile_distinct_N_P_pairs=len(stats['tile_pairs']), tile_sweep_complete_N_le_64_P_le_16=not quick,
         worlds_by_P=stats['by_P'], worlds_by_policy=stats['by_policy'], worlds_by_likelihood=stats['by_like'],
-        fit_worlds_with_more_ranks_than_unique_functions=stats['P_gt_U'], fit_worlds_with_P_ge_11=stats['P_ge_11'], fit_worlds_with_ignore_previous_eqns=stats['ipe_worlds'],
+        fit_worlds_with_more_ranks_than_unique_functions=stats['P_gt_U'], fit_worlds_with_P_ge_11=stats['P_ge_11'], fit_worlds_with_ignore_previous_eqns=stats['ipe_worlds'], fit_worlds_with_timeouts_in_test_all=stats['fault_worlds'], timeouts_fired_in_fitting=stats['faults_fired'],
         output_rows_recomputed=stats['rows_checked'], one_rank_reruns_compared=stats['cmp_runs'],
         seam_events=stats['events'], runs_per_hour=round(3600.0 * nw / max(wall, 1e-9)),
-        fault_kinds={'F1 interleaving choice': stats['events'], 'F5 rank count': nw}, selftest=selftest,
+        fault_kinds={'F1 interleaving choice': stats['events'], 'F5 rank count': nw, 'F3 timer expiry in test_all (fired)': stats['faults_fired']}, selftest=selftest,
         components=base.COMPONENTS, harness_errors=len(rep.harness), repo_head=base.repo_head(), exhaustive=False)
     rc = rep.finish()
     base.write_evidence(PID, tier, seed, 'exploration', cov, wall, len(rep.violations),
